@@ -56,8 +56,24 @@ impl ImplTable {
     pub uninterp spec fn has(&self, tr: Seq<char>, ty: Ty) -> bool;
     #[verifier::external_body] pub fn contains_key(&self, k: &(String, Ty)) -> (r: bool) ensures r == self.has(k.0@, k.1) { unimplemented!() }
 }
-pub struct TraitEnv { pub trait_impls: ImplTable }
+pub struct TraitEnv { pub trait_impls: ImplTable, pub inherent_impls: InherentTable }
 pub struct PkgEnv { pub trait_env: TraitEnv }
 pub struct PackageTypeEnv { pub package: String, pub cur: PkgEnv }
 impl PackageTypeEnv { pub fn current(&self) -> (r: &PkgEnv) ensures *r == self.cur { &self.cur } }
+// env.current().trait_env.inherent_impls: per key (the type, or its constructor for a generic impl) the methods defined so far
+#[verifier::external_body] pub struct FnScheme { _p: u64 }
+#[verifier::external_body] pub struct SchemeMap { _p: u64 }            // IndexMap<String, FnScheme>
+impl View for SchemeMap { type V = Map<Seq<char>, FnScheme>; uninterp spec fn view(&self) -> Map<Seq<char>, FnScheme>; }
+impl SchemeMap {
+    #[verifier::external_body] pub fn new() -> (r: SchemeMap) ensures r@ == Map::<Seq<char>, FnScheme>::empty() { unimplemented!() }
+    #[verifier::external_body] pub fn contains_key(&self, k: &String) -> (r: bool) ensures r == self@.dom().contains(k@) { unimplemented!() }
+    #[verifier::external_body] pub fn insert(&mut self, k: String, v: FnScheme) ensures final(self)@ == old(self)@.insert(k@, v) { unimplemented!() }
+}
+pub struct ImplDef { pub methods: SchemeMap }
+#[verifier::external_body] pub struct InherentTable { _p: u64 }
+impl InherentTable {
+    pub uninterp spec fn methods(&self, k: InherentImplKey) -> Map<Seq<char>, FnScheme>;        // the empty map where the key has no entry
+    #[verifier::external_body] pub fn get(&self, k: &InherentImplKey) -> (r: Option<&ImplDef>)
+        ensures r matches Some(d) ==> d.methods@ == self.methods(*k), r is None ==> self.methods(*k) == Map::<Seq<char>, FnScheme>::empty() { unimplemented!() }
+}
 
